@@ -10,11 +10,87 @@
 //   *_ks               KeyInit::new(key).k == key schedule of the paper, all keys
 //   *_rounds           ARBITRARY round-key state (full carrier width, garbage above bit n allowed; superset of all
 //                      keys) + symbolic block: encrypt_block / decrypt_block == oracle
-//   *_rt               arbitrary round-key state: dec(enc(b)) == b, enc(dec(b)) == b
+//   *_rt               D: arbitrary round-key state: dec(enc(b)) == b, enc(dec(b)) == b
+//   speck_leaf_inverse L: for every type, every k, x, y: round_function(k, .) and inverse_round_function(k, .) are
+//                      mutually inverse modulo 2^n (with the garbage conventions above) -- what the W queries assume
+//   *_w_*              W (96- and 128-bit blocks, where D is slow): the same statements with round_function /
+//                      inverse_round_function uninterpreted (module ufs): pass 1 logs (k, args, result) of every call,
+//                      the i-th call of pass 2 is constrained against the ONE logged call the round structure pairs
+//                      it with -- equal arguments => equal results when both passes run the same function (conformance:
+//                      implementation, then oracle with the same uninterpreted leaf), or the inverse relation of the
+//                      leaf lemma when pass 2 undoes pass 1 (round trips).  Every assumed implication holds for the real
+//                      functions whatever the pairing, so a wrong pairing can only cause a spurious counterexample.
 use super::prelude::*;
 use crate::{Speck128_128, Speck128_192, Speck128_256, Speck32_64, Speck48_72, Speck48_96, Speck64_128, Speck64_96, Speck96_144, Speck96_96};
 use cipher::{BlockCipherDecrypt, BlockCipherEncrypt, KeyInit};
 use refmodels::speck as r;
+
+
+#[cfg(kani)]
+pub mod ufs {
+    // one pass has at most 34 calls (Speck128/256)
+    pub static mut K: [u64; 34] = [0; 34];
+    pub static mut A0: [u64; 34] = [0; 34];
+    pub static mut A1: [u64; 34] = [0; 34];
+    pub static mut B0: [u64; 34] = [0; 34];
+    pub static mut B1: [u64; 34] = [0; 34];
+    pub static mut N: usize = 0;
+    pub static mut HALF: usize = 0;
+    pub static mut MASK: u64 = 0;
+    pub static mut INVERSE_PAIRING: bool = false;
+    /// half: calls per pass; mask: 2^n - 1; inverse_pairing: pass 2 runs the other function, last round first
+    pub fn setup(half: usize, mask: u64, inverse_pairing: bool) {
+        unsafe {
+            N = 0;
+            HALF = half;
+            MASK = mask;
+            INVERSE_PAIRING = inverse_pairing;
+        }
+    }
+    /// fwd: round_function, else inverse_round_function; (k, x, y) -> result
+    pub fn call(fwd: bool, k: u64, x: u64, y: u64) -> (u64, u64) {
+        unsafe {
+            let r: (u64, u64) = (kani::any(), kani::any());
+            let m = MASK;
+            let n = N;
+            kani::assert(HALF <= 34 && n < 2 * HALF, "VERIF_UF_CAPACITY");
+            if fwd {
+                // round_function masks both results (leaf lemma speck_leaf_round: outputs < 2^n)
+                kani::assume((r.0 & !m == 0) & (r.1 & !m == 0));
+            }
+            if n < HALF {
+                K[n] = k;
+                A0[n] = x;
+                A1[n] = y;
+                B0[n] = r.0;
+                B1[n] = r.1;
+            } else if !INVERSE_PAIRING {
+                // same function, same arguments => same result
+                let e = n - HALF;
+                kani::assume(!((K[e] == k) & (A0[e] == x) & (A1[e] == y)) | ((B0[e] == r.0) & (B1[e] == r.1)));
+            } else {
+                // entry e: F(k, A) = B logged in pass 1 (F = the other function); this call G(k, x, y) with
+                // (x, y) == B modulo 2^n must return A modulo 2^n (leaf lemma speck_leaf_inverse).
+                let e = 2 * HALF - 1 - n;
+                let hit = if fwd {
+                    // G = round_function wants clean arguments: x, y equal the logged results reduced mod 2^n
+                    (K[e] == k) & (x == B0[e] & m) & (y == B1[e] & m)
+                } else {
+                    (K[e] == k) & (x & m == B0[e] & m) & (y & m == B1[e] & m)
+                };
+                kani::assume(!hit | ((r.0 & m == A0[e] & m) & (r.1 & m == A1[e] & m)));
+            }
+            N = n + 1;
+            r
+        }
+    }
+}
+#[cfg(kani)]
+fn ufs_setup(half: usize, mask: u64, inverse_pairing: bool) {
+    ufs::setup(half, mask, inverse_pairing)
+}
+#[cfg(not(kani))]
+fn ufs_setup(_half: usize, _mask: u64, _inverse_pairing: bool) {}
 
 macro_rules! speck_inst {
     ($m:ident, $name:ident, $wt:ty, bb = $bb:expr, kb = $kb:expr, t = $t:expr) => {
@@ -40,6 +116,108 @@ macro_rules! speck_inst {
                 let (ea, eb) = r::inv_round(&P, k, x, y);
                 vcheck!((a as u64) & m == ea && (b as u64) & m == eb && ea <= m && eb <= m);
                 Some(true)
+            }
+
+
+            /// leaf lemma for the W round trips: mutual inverse modulo 2^n
+            pub fn leaf_inv(k: u64, x: u64, y: u64) -> Option<bool> {
+                let m = r::mask(P.n);
+                let kk = k as $wt;
+                // (1) any k, any x, y (garbage allowed): round(k, inverse(k, x, y) mod 2^n) == (x, y) mod 2^n
+                let (a0, a1) = $name::inverse_round_function(kk, x as $wt, y as $wt);
+                let (b0, b1) = $name::round_function(kk, ((a0 as u64) & m) as $wt, ((a1 as u64) & m) as $wt);
+                vcheck!(b0 as u64 == x & m && b1 as u64 == y & m);
+                // (2) any k, clean x, y: inverse(k, round(k, x, y)) == (x, y) modulo 2^n
+                let (c0, c1) = $name::round_function(kk, (x & m) as $wt, (y & m) as $wt);
+                let (d0, d1) = $name::inverse_round_function(kk, c0, c1);
+                vcheck!((d0 as u64) & m == x & m && (d1 as u64) & m == y & m);
+                Some(true)
+            }
+
+            #[cfg(kani)]
+            pub fn stub_rf(k: $wt, x: $wt, y: $wt) -> ($wt, $wt) {
+                let (a, b) = ufs::call(true, k as u64, x as u64, y as u64);
+                (a as $wt, b as $wt)
+            }
+            #[cfg(kani)]
+            pub fn stub_irf(k: $wt, x: $wt, y: $wt) -> ($wt, $wt) {
+                let (a, b) = ufs::call(false, k as u64, x as u64, y as u64);
+                (a as $wt, b as $wt)
+            }
+            // native replay: never installed as stubs; the oracle side uses its own leaves (orf / oirf below)
+            #[cfg(not(kani))]
+            pub fn stub_rf(k: $wt, x: $wt, y: $wt) -> ($wt, $wt) {
+                $name::round_function(k, x, y)
+            }
+            #[cfg(not(kani))]
+            pub fn stub_irf(k: $wt, x: $wt, y: $wt) -> ($wt, $wt) {
+                $name::inverse_round_function(k, x, y)
+            }
+            /// the oracle's leaf: uninterpreted (shared with the implementation) under Kani, the oracle's own natively
+            #[cfg(kani)]
+            fn orf(k: u64, x: u64, y: u64) -> (u64, u64) {
+                let (a, b) = ufs::call(true, (k as $wt) as u64, (x as $wt) as u64, (y as $wt) as u64);
+                ((a as $wt) as u64, (b as $wt) as u64)
+            }
+            #[cfg(kani)]
+            fn oirf(k: u64, x: u64, y: u64) -> (u64, u64) {
+                let (a, b) = ufs::call(false, (k as $wt) as u64, (x as $wt) as u64, (y as $wt) as u64);
+                ((a as $wt) as u64, (b as $wt) as u64)
+            }
+            #[cfg(not(kani))]
+            fn orf(k: u64, x: u64, y: u64) -> (u64, u64) {
+                r::round(&P, k, x, y)
+            }
+            #[cfg(not(kani))]
+            fn oirf(k: u64, x: u64, y: u64) -> (u64, u64) {
+                r::inv_round(&P, k, x, y)
+            }
+
+            pub fn ks_w(inp: &[u8]) -> Option<bool> {
+                ufs_setup(T - 1, r::mask(P.n), false);
+                let key: [u8; KB] = take(inp, 0);
+                let c = $name::new(&key.into());
+                let rk = r::key_schedule_with(&P, &key, orf);
+                let mut i = 0;
+                while i < T {
+                    vcheck!(c.k[i] as u64 == rk[i]);
+                    i += 1;
+                }
+                Some(true)
+            }
+            pub fn enc_w(inp: &[u8]) -> Option<bool> {
+                ufs_setup(T, r::mask(P.n), false);
+                let (c, rk, blk) = arb(inp);
+                let mut b: cipher::Block<$name> = blk.into();
+                c.encrypt_block(&mut b);
+                let mut e = blk;
+                r::crypt_block_with(&P, &rk, &mut e, false, orf);
+                Some(same(&b, &e))
+            }
+            pub fn dec_w(inp: &[u8]) -> Option<bool> {
+                ufs_setup(T, r::mask(P.n), false);
+                let (c, rk, blk) = arb(inp);
+                let mut b: cipher::Block<$name> = blk.into();
+                c.decrypt_block(&mut b);
+                let mut e = blk;
+                r::crypt_block_with(&P, &rk, &mut e, true, oirf);
+                Some(same(&b, &e))
+            }
+            pub fn rt_w_ed(inp: &[u8]) -> Option<bool> {
+                ufs_setup(T, r::mask(P.n), true);
+                let (c, _rk, blk) = arb(inp);
+                let mut b: cipher::Block<$name> = blk.into();
+                c.encrypt_block(&mut b);
+                c.decrypt_block(&mut b);
+                Some(same(&b, &blk))
+            }
+            pub fn rt_w_de(inp: &[u8]) -> Option<bool> {
+                ufs_setup(T, r::mask(P.n), true);
+                let (c, _rk, blk) = arb(inp);
+                let mut b: cipher::Block<$name> = blk.into();
+                c.decrypt_block(&mut b);
+                c.encrypt_block(&mut b);
+                Some(same(&b, &blk))
             }
 
             pub fn ks(inp: &[u8]) -> Option<bool> {
@@ -134,6 +312,27 @@ verif_harness! {
         vcheck!(s128_128::leaf(k, x, y) == Some(true));
         vcheck!(s128_192::leaf(k, x, y) == Some(true));
         vcheck!(s128_256::leaf(k, x, y) == Some(true));
+        Some(true)
+    }
+}
+
+//@ harness name=speck_leaf_inverse prop=C01,C10,C20 tier=quick bits=192 est=60 desc="L: for all ten Speck types, every k, x, y: round_function(k, inverse_round_function(k, x, y) mod 2^n) == (x, y) mod 2^n (garbage above bit n allowed in k, x, y) and inverse_round_function(k, round_function(k, x, y)) == (x, y) mod 2^n for x, y < 2^n"
+verif_harness! {
+    name: speck_leaf_inverse,
+    bytes: 24,
+    unwind: 40,
+    prop: |inp| {
+        let (k, x, y) = (take_u64(inp, 0), take_u64(inp, 8), take_u64(inp, 16));
+        vcheck!(s32_64::leaf_inv(k, x, y) == Some(true));
+        vcheck!(s48_72::leaf_inv(k, x, y) == Some(true));
+        vcheck!(s48_96::leaf_inv(k, x, y) == Some(true));
+        vcheck!(s64_96::leaf_inv(k, x, y) == Some(true));
+        vcheck!(s64_128::leaf_inv(k, x, y) == Some(true));
+        vcheck!(s96_96::leaf_inv(k, x, y) == Some(true));
+        vcheck!(s96_144::leaf_inv(k, x, y) == Some(true));
+        vcheck!(s128_128::leaf_inv(k, x, y) == Some(true));
+        vcheck!(s128_192::leaf_inv(k, x, y) == Some(true));
+        vcheck!(s128_256::leaf_inv(k, x, y) == Some(true));
         Some(true)
     }
 }
@@ -376,4 +575,211 @@ verif_harness! {
     bytes: 288,
     unwind: 40,
     prop: |inp| { s128_256::rt(inp) }
+}
+
+// ------------------------------------------------------------------ W variants (wide blocks)
+
+//@ harness name=speck96_96_w_ks prop=C10,C20 tier=quick bits=96 stub=1 est=60 desc="W: Speck96_96::new(key).k == key schedule of the paper (28 round keys) with round_function uninterpreted (shared with the oracle: (l_(i+m-1), k_(i+1)) = R_i(l_i, k_i)), all keys"
+verif_harness! {
+    name: speck96_96_w_ks,
+    bytes: 12,
+    unwind: 40,
+    stubs: [(crate::Speck96_96::round_function, s96_96::stub_rf), (crate::Speck96_96::inverse_round_function, s96_96::stub_irf)],
+    prop: |inp| { s96_96::ks_w(inp) }
+}
+//@ harness name=speck96_96_w_enc prop=C10,C20 tier=quick bits=1888 stub=1 est=60 desc="W: Speck96_96 encrypt_block == oracle (28 rounds, byte order) on an arbitrary round-key state, all blocks, round_function uninterpreted"
+verif_harness! {
+    name: speck96_96_w_enc,
+    bytes: 236,
+    unwind: 40,
+    stubs: [(crate::Speck96_96::round_function, s96_96::stub_rf), (crate::Speck96_96::inverse_round_function, s96_96::stub_irf)],
+    prop: |inp| { s96_96::enc_w(inp) }
+}
+//@ harness name=speck96_96_w_dec prop=C10,C20 tier=quick bits=1888 stub=1 est=60 desc="W: Speck96_96 decrypt_block == oracle (round keys in reverse) on an arbitrary round-key state, all blocks, inverse_round_function uninterpreted"
+verif_harness! {
+    name: speck96_96_w_dec,
+    bytes: 236,
+    unwind: 40,
+    stubs: [(crate::Speck96_96::round_function, s96_96::stub_rf), (crate::Speck96_96::inverse_round_function, s96_96::stub_irf)],
+    prop: |inp| { s96_96::dec_w(inp) }
+}
+//@ harness name=speck96_96_w_rt_ed prop=C01,C20 tier=quick bits=1888 stub=1 est=60 desc="W: Speck96_96 decrypt_block(encrypt_block(b)) == b on an arbitrary round-key state, all blocks; round_function / inverse_round_function uninterpreted mutual inverses (leaf lemma speck_leaf_inverse)"
+verif_harness! {
+    name: speck96_96_w_rt_ed,
+    bytes: 236,
+    unwind: 40,
+    stubs: [(crate::Speck96_96::round_function, s96_96::stub_rf), (crate::Speck96_96::inverse_round_function, s96_96::stub_irf)],
+    prop: |inp| { s96_96::rt_w_ed(inp) }
+}
+//@ harness name=speck96_96_w_rt_de prop=C01,C20 tier=quick bits=1888 stub=1 est=60 desc="W: Speck96_96 encrypt_block(decrypt_block(b)) == b on an arbitrary round-key state, all blocks; round_function / inverse_round_function uninterpreted mutual inverses"
+verif_harness! {
+    name: speck96_96_w_rt_de,
+    bytes: 236,
+    unwind: 40,
+    stubs: [(crate::Speck96_96::round_function, s96_96::stub_rf), (crate::Speck96_96::inverse_round_function, s96_96::stub_irf)],
+    prop: |inp| { s96_96::rt_w_de(inp) }
+}
+
+//@ harness name=speck96_144_w_ks prop=C10,C20 tier=quick bits=144 stub=1 est=60 desc="W: Speck96_144::new(key).k == key schedule of the paper (29 round keys) with round_function uninterpreted (shared with the oracle: (l_(i+m-1), k_(i+1)) = R_i(l_i, k_i)), all keys"
+verif_harness! {
+    name: speck96_144_w_ks,
+    bytes: 18,
+    unwind: 40,
+    stubs: [(crate::Speck96_144::round_function, s96_144::stub_rf), (crate::Speck96_144::inverse_round_function, s96_144::stub_irf)],
+    prop: |inp| { s96_144::ks_w(inp) }
+}
+//@ harness name=speck96_144_w_enc prop=C10,C20 tier=quick bits=1952 stub=1 est=60 desc="W: Speck96_144 encrypt_block == oracle (29 rounds, byte order) on an arbitrary round-key state, all blocks, round_function uninterpreted"
+verif_harness! {
+    name: speck96_144_w_enc,
+    bytes: 244,
+    unwind: 40,
+    stubs: [(crate::Speck96_144::round_function, s96_144::stub_rf), (crate::Speck96_144::inverse_round_function, s96_144::stub_irf)],
+    prop: |inp| { s96_144::enc_w(inp) }
+}
+//@ harness name=speck96_144_w_dec prop=C10,C20 tier=quick bits=1952 stub=1 est=60 desc="W: Speck96_144 decrypt_block == oracle (round keys in reverse) on an arbitrary round-key state, all blocks, inverse_round_function uninterpreted"
+verif_harness! {
+    name: speck96_144_w_dec,
+    bytes: 244,
+    unwind: 40,
+    stubs: [(crate::Speck96_144::round_function, s96_144::stub_rf), (crate::Speck96_144::inverse_round_function, s96_144::stub_irf)],
+    prop: |inp| { s96_144::dec_w(inp) }
+}
+//@ harness name=speck96_144_w_rt_ed prop=C01,C20 tier=quick bits=1952 stub=1 est=60 desc="W: Speck96_144 decrypt_block(encrypt_block(b)) == b on an arbitrary round-key state, all blocks; round_function / inverse_round_function uninterpreted mutual inverses (leaf lemma speck_leaf_inverse)"
+verif_harness! {
+    name: speck96_144_w_rt_ed,
+    bytes: 244,
+    unwind: 40,
+    stubs: [(crate::Speck96_144::round_function, s96_144::stub_rf), (crate::Speck96_144::inverse_round_function, s96_144::stub_irf)],
+    prop: |inp| { s96_144::rt_w_ed(inp) }
+}
+//@ harness name=speck96_144_w_rt_de prop=C01,C20 tier=quick bits=1952 stub=1 est=60 desc="W: Speck96_144 encrypt_block(decrypt_block(b)) == b on an arbitrary round-key state, all blocks; round_function / inverse_round_function uninterpreted mutual inverses"
+verif_harness! {
+    name: speck96_144_w_rt_de,
+    bytes: 244,
+    unwind: 40,
+    stubs: [(crate::Speck96_144::round_function, s96_144::stub_rf), (crate::Speck96_144::inverse_round_function, s96_144::stub_irf)],
+    prop: |inp| { s96_144::rt_w_de(inp) }
+}
+
+//@ harness name=speck128_128_w_ks prop=C10,C20 tier=quick bits=128 stub=1 est=60 desc="W: Speck128_128::new(key).k == key schedule of the paper (32 round keys) with round_function uninterpreted (shared with the oracle: (l_(i+m-1), k_(i+1)) = R_i(l_i, k_i)), all keys"
+verif_harness! {
+    name: speck128_128_w_ks,
+    bytes: 16,
+    unwind: 40,
+    stubs: [(crate::Speck128_128::round_function, s128_128::stub_rf), (crate::Speck128_128::inverse_round_function, s128_128::stub_irf)],
+    prop: |inp| { s128_128::ks_w(inp) }
+}
+//@ harness name=speck128_128_w_enc prop=C10,C20 tier=quick bits=2176 stub=1 est=60 desc="W: Speck128_128 encrypt_block == oracle (32 rounds, byte order) on an arbitrary round-key state, all blocks, round_function uninterpreted"
+verif_harness! {
+    name: speck128_128_w_enc,
+    bytes: 272,
+    unwind: 40,
+    stubs: [(crate::Speck128_128::round_function, s128_128::stub_rf), (crate::Speck128_128::inverse_round_function, s128_128::stub_irf)],
+    prop: |inp| { s128_128::enc_w(inp) }
+}
+//@ harness name=speck128_128_w_dec prop=C10,C20 tier=quick bits=2176 stub=1 est=60 desc="W: Speck128_128 decrypt_block == oracle (round keys in reverse) on an arbitrary round-key state, all blocks, inverse_round_function uninterpreted"
+verif_harness! {
+    name: speck128_128_w_dec,
+    bytes: 272,
+    unwind: 40,
+    stubs: [(crate::Speck128_128::round_function, s128_128::stub_rf), (crate::Speck128_128::inverse_round_function, s128_128::stub_irf)],
+    prop: |inp| { s128_128::dec_w(inp) }
+}
+//@ harness name=speck128_128_w_rt_ed prop=C01,C20 tier=quick bits=2176 stub=1 est=60 desc="W: Speck128_128 decrypt_block(encrypt_block(b)) == b on an arbitrary round-key state, all blocks; round_function / inverse_round_function uninterpreted mutual inverses (leaf lemma speck_leaf_inverse)"
+verif_harness! {
+    name: speck128_128_w_rt_ed,
+    bytes: 272,
+    unwind: 40,
+    stubs: [(crate::Speck128_128::round_function, s128_128::stub_rf), (crate::Speck128_128::inverse_round_function, s128_128::stub_irf)],
+    prop: |inp| { s128_128::rt_w_ed(inp) }
+}
+//@ harness name=speck128_128_w_rt_de prop=C01,C20 tier=quick bits=2176 stub=1 est=60 desc="W: Speck128_128 encrypt_block(decrypt_block(b)) == b on an arbitrary round-key state, all blocks; round_function / inverse_round_function uninterpreted mutual inverses"
+verif_harness! {
+    name: speck128_128_w_rt_de,
+    bytes: 272,
+    unwind: 40,
+    stubs: [(crate::Speck128_128::round_function, s128_128::stub_rf), (crate::Speck128_128::inverse_round_function, s128_128::stub_irf)],
+    prop: |inp| { s128_128::rt_w_de(inp) }
+}
+
+//@ harness name=speck128_192_w_ks prop=C10,C20 tier=quick bits=192 stub=1 est=60 desc="W: Speck128_192::new(key).k == key schedule of the paper (33 round keys) with round_function uninterpreted (shared with the oracle: (l_(i+m-1), k_(i+1)) = R_i(l_i, k_i)), all keys"
+verif_harness! {
+    name: speck128_192_w_ks,
+    bytes: 24,
+    unwind: 40,
+    stubs: [(crate::Speck128_192::round_function, s128_192::stub_rf), (crate::Speck128_192::inverse_round_function, s128_192::stub_irf)],
+    prop: |inp| { s128_192::ks_w(inp) }
+}
+//@ harness name=speck128_192_w_enc prop=C10,C20 tier=quick bits=2240 stub=1 est=60 desc="W: Speck128_192 encrypt_block == oracle (33 rounds, byte order) on an arbitrary round-key state, all blocks, round_function uninterpreted"
+verif_harness! {
+    name: speck128_192_w_enc,
+    bytes: 280,
+    unwind: 40,
+    stubs: [(crate::Speck128_192::round_function, s128_192::stub_rf), (crate::Speck128_192::inverse_round_function, s128_192::stub_irf)],
+    prop: |inp| { s128_192::enc_w(inp) }
+}
+//@ harness name=speck128_192_w_dec prop=C10,C20 tier=quick bits=2240 stub=1 est=60 desc="W: Speck128_192 decrypt_block == oracle (round keys in reverse) on an arbitrary round-key state, all blocks, inverse_round_function uninterpreted"
+verif_harness! {
+    name: speck128_192_w_dec,
+    bytes: 280,
+    unwind: 40,
+    stubs: [(crate::Speck128_192::round_function, s128_192::stub_rf), (crate::Speck128_192::inverse_round_function, s128_192::stub_irf)],
+    prop: |inp| { s128_192::dec_w(inp) }
+}
+//@ harness name=speck128_192_w_rt_ed prop=C01,C20 tier=quick bits=2240 stub=1 est=60 desc="W: Speck128_192 decrypt_block(encrypt_block(b)) == b on an arbitrary round-key state, all blocks; round_function / inverse_round_function uninterpreted mutual inverses (leaf lemma speck_leaf_inverse)"
+verif_harness! {
+    name: speck128_192_w_rt_ed,
+    bytes: 280,
+    unwind: 40,
+    stubs: [(crate::Speck128_192::round_function, s128_192::stub_rf), (crate::Speck128_192::inverse_round_function, s128_192::stub_irf)],
+    prop: |inp| { s128_192::rt_w_ed(inp) }
+}
+//@ harness name=speck128_192_w_rt_de prop=C01,C20 tier=quick bits=2240 stub=1 est=60 desc="W: Speck128_192 encrypt_block(decrypt_block(b)) == b on an arbitrary round-key state, all blocks; round_function / inverse_round_function uninterpreted mutual inverses"
+verif_harness! {
+    name: speck128_192_w_rt_de,
+    bytes: 280,
+    unwind: 40,
+    stubs: [(crate::Speck128_192::round_function, s128_192::stub_rf), (crate::Speck128_192::inverse_round_function, s128_192::stub_irf)],
+    prop: |inp| { s128_192::rt_w_de(inp) }
+}
+
+//@ harness name=speck128_256_w_ks prop=C10,C20 tier=quick bits=256 stub=1 est=60 desc="W: Speck128_256::new(key).k == key schedule of the paper (34 round keys) with round_function uninterpreted (shared with the oracle: (l_(i+m-1), k_(i+1)) = R_i(l_i, k_i)), all keys"
+verif_harness! {
+    name: speck128_256_w_ks,
+    bytes: 32,
+    unwind: 40,
+    stubs: [(crate::Speck128_256::round_function, s128_256::stub_rf), (crate::Speck128_256::inverse_round_function, s128_256::stub_irf)],
+    prop: |inp| { s128_256::ks_w(inp) }
+}
+//@ harness name=speck128_256_w_enc prop=C10,C20 tier=quick bits=2304 stub=1 est=60 desc="W: Speck128_256 encrypt_block == oracle (34 rounds, byte order) on an arbitrary round-key state, all blocks, round_function uninterpreted"
+verif_harness! {
+    name: speck128_256_w_enc,
+    bytes: 288,
+    unwind: 40,
+    stubs: [(crate::Speck128_256::round_function, s128_256::stub_rf), (crate::Speck128_256::inverse_round_function, s128_256::stub_irf)],
+    prop: |inp| { s128_256::enc_w(inp) }
+}
+//@ harness name=speck128_256_w_dec prop=C10,C20 tier=quick bits=2304 stub=1 est=60 desc="W: Speck128_256 decrypt_block == oracle (round keys in reverse) on an arbitrary round-key state, all blocks, inverse_round_function uninterpreted"
+verif_harness! {
+    name: speck128_256_w_dec,
+    bytes: 288,
+    unwind: 40,
+    stubs: [(crate::Speck128_256::round_function, s128_256::stub_rf), (crate::Speck128_256::inverse_round_function, s128_256::stub_irf)],
+    prop: |inp| { s128_256::dec_w(inp) }
+}
+//@ harness name=speck128_256_w_rt_ed prop=C01,C20 tier=quick bits=2304 stub=1 est=60 desc="W: Speck128_256 decrypt_block(encrypt_block(b)) == b on an arbitrary round-key state, all blocks; round_function / inverse_round_function uninterpreted mutual inverses (leaf lemma speck_leaf_inverse)"
+verif_harness! {
+    name: speck128_256_w_rt_ed,
+    bytes: 288,
+    unwind: 40,
+    stubs: [(crate::Speck128_256::round_function, s128_256::stub_rf), (crate::Speck128_256::inverse_round_function, s128_256::stub_irf)],
+    prop: |inp| { s128_256::rt_w_ed(inp) }
+}
+//@ harness name=speck128_256_w_rt_de prop=C01,C20 tier=quick bits=2304 stub=1 est=60 desc="W: Speck128_256 encrypt_block(decrypt_block(b)) == b on an arbitrary round-key state, all blocks; round_function / inverse_round_function uninterpreted mutual inverses"
+verif_harness! {
+    name: speck128_256_w_rt_de,
+    bytes: 288,
+    unwind: 40,
+    stubs: [(crate::Speck128_256::round_function, s128_256::stub_rf), (crate::Speck128_256::inverse_round_function, s128_256::stub_irf)],
+    prop: |inp| { s128_256::rt_w_de(inp) }
 }
